@@ -30,6 +30,9 @@ pub struct Item {
     pub text: String,
     pub feats: Vec<String>,
     pub full: bool,
+    /// thorough tier: explore this item at thorough depth (larger blocks, more starts, all pairs);
+    /// the items only the thorough family adds are explored at the quick tier's depth
+    pub deep: bool,
 }
 
 fn viol(kind: &str, it: &Item, c: &Ctx, call: &str, from: NaiveDateTime, to: Option<NaiveDateTime>, detail: String) -> Violation {
@@ -109,6 +112,9 @@ pub fn check_item(it: &Item, c: &Ctx, quick: bool, only: Option<(&str, NaiveDate
             return;
         }
     };
+    // depth: the thorough tier explores the quick family at thorough depth and its own additions
+    // (two orders of magnitude more expressions) at the quick tier's depth
+    let quick = quick || !it.deep;
     let core = windows::w_core_blocks();
     let mut transitions = 0u64;
     let mut streams = 0u64;
@@ -322,20 +328,21 @@ pub fn shortcut_family(quick: bool) -> Vec<OpeningHoursExpression> {
 pub fn family(cfg: &Cfg) -> Vec<Item> {
     let mut items: Vec<Item> = Vec::new();
     let mut seen = std::collections::HashSet::new();
-    let mut push = |e: &OpeningHoursExpression, full: bool, items: &mut Vec<Item>| {
+    let mut push = |e: &OpeningHoursExpression, full: bool, deep: bool, items: &mut Vec<Item>| {
         if let Some(text) = canon(e) {
             if seen.insert(text.clone()) {
-                items.push(Item { text, feats: features::of_expr(e), full });
+                items.push(Item { text, feats: features::of_expr(e), full, deep });
             }
         }
     };
+    // ---- the quick family (explored at thorough depth by the thorough tier)
     for e in long_skip_list(cfg.quick()) {
-        push(&e, true, &mut items);
+        push(&e, true, true, &mut items);
     }
     // corpus: full window in the thorough tier, block mode in the quick tier
     for s in al::corpus(&cfg.repo) {
         if let Ok(e) = opening_hours_syntax::parse(&s) {
-            items.push(Item { text: s, feats: features::of_expr(&e), full: !cfg.quick() });
+            items.push(Item { text: s, feats: features::of_expr(&e), full: !cfg.quick(), deep: true });
         }
     }
     // rest of the family, block mode
@@ -344,29 +351,37 @@ pub fn family(cfg: &Cfg) -> Vec<Item> {
         if cfg.quick() && e.rules.iter().any(|r| !r.comments.is_empty()) {
             continue;
         }
-        push(&e, false, &mut items);
+        push(&e, false, true, &mut items);
     }
-    for e in shortcut_family(cfg.quick()) {
-        push(&e, false, &mut items);
+    for e in shortcut_family(true) {
+        push(&e, false, true, &mut items);
     }
     let r2 = al::r2();
     let n2 = al::e2_count();
-    let stride = if cfg.quick() { 211 } else { 5 };
     let mut i = 0;
     while i < n2 {
         let e = al::e2_at(&r2, i);
-        push(&e, false, &mut items);
-        i += stride;
+        push(&e, false, true, &mut items);
+        i += 211;
     }
+    // ---- additions of the thorough tier (explored at the quick tier's depth)
     if !cfg.quick() {
+        for e in shortcut_family(false) {
+            push(&e, false, false, &mut items);
+        }
+        let mut i = 0;
+        while i < n2 {
+            push(&al::e2_at(&r2, i), false, false, &mut items);
+            i += 5;
+        }
         for e in al::e1(2) {
-            push(&e, false, &mut items);
+            push(&e, false, false, &mut items);
         }
         let r3 = al::r3();
         let n3 = al::e3_count();
         let mut i = 0;
         while i < n3 {
-            push(&al::e3_at(&r3, i), false, &mut items);
+            push(&al::e3_at(&r3, i), false, false, &mut items);
             i += 37;
         }
     }
@@ -426,7 +441,7 @@ pub fn run(cfg: &Cfg) -> Outcome {
     }
     o.cov("family_size", json!(items.len()));
     o.cov("full_window_expressions", json!(n_full));
-    o.cov("rule", json!("iterator as a transition system: for every expression × context, streams iter_from/iter_range are compared interval by interval with the pointwise oracle P (real schedule_at over every day of the window, run-length merged). Full-window mode (1899-12-30..10000-01-02, all 2 958 466 days): iter_from(DATE_START) and iter_from(DATE_START−1d) consumed to exhaustion, 40 intervals from every derived start (P boundaries in W_core × {−1min,−1s,0,+1s}, capped earliest/latest; year starts/ends; DATE_END±), iter_range on all ordered pairs of 24 instants around 4 boundaries. Block mode: the same on the three W_core blocks with P restricted to the block. states = iterator positions, transitions = next() calls compared, validated = complete streams equal to P; non-trivial = (expr, ctx) whose P has more than one run"));
+    o.cov("rule", json!("iterator as a transition system: for every expression × context, streams iter_from/iter_range are compared interval by interval with the pointwise oracle P (real schedule_at over every day of the window, run-length merged). Full-window mode (1899-12-30..10000-01-02, all 2 958 466 days): iter_from(DATE_START) and iter_from(DATE_START−1d) consumed to exhaustion, 40 intervals from every derived start (P boundaries in W_core × {−1min,−1s,0,+1s}, capped earliest/latest; year starts/ends; DATE_END±), iter_range on all ordered pairs of 24 instants around 4 boundaries. Block mode: the same on the three W_core blocks with P restricted to the block. states = iterator positions, transitions = next() calls compared, validated = complete streams equal to P; non-trivial = (expr, ctx) whose P has more than one run. Thorough tier: the quick family is explored at thorough depth (W_core blocks, larger start caps, all pairs, larger budgets); the expressions only the thorough family adds (E1 with two selector kinds, every 5th E2, every 37th E3, the larger shortcut family K) at the quick tier's depth"));
     o.assume("P uses the real schedule_at (C02 is a consistency property between two paths of the implementation; schedule_at itself is C01's subject)");
     o
 }
@@ -438,7 +453,7 @@ pub fn replay(cfg: &Cfg, case: &Value) -> Vec<Violation> {
     let feats = features::of_str(text);
     let from = case.get("from").and_then(|v| v.as_str()).and_then(parse_dt);
     let to = case.get("to").and_then(|v| v.as_str()).and_then(parse_dt);
-    let it = Item { text: text.to_string(), feats, full: true };
+    let it = Item { text: text.to_string(), feats, full: true, deep: true };
     match from {
         Some(f) => {
             let call = if to.is_none() { "iter_from_exhaust" } else { "iter_range" };
